@@ -694,3 +694,172 @@ PROPS["C01"] = {
                     "in-domain values: ln/reciprocal/division/fractional powers only on positive data"],
     "dual": True,
 }
+
+
+# ======================================================================================
+# C02 each operation's derivative
+
+def single_op_case(rng, op, operands, cls, tracked=None, exact=True, seed_kind="int", rtol=None):
+    """operands: list of (dims, values); all tracked unless a mask is given"""
+    b = randprog.Builder(rng, exact=exact)
+    vs = []
+    for j, (d, vals) in enumerate(operands):
+        t = True if tracked is None else tracked[j]
+        vs.append(b.leaf(d, tracked=t, values=vals))
+    dims = out_dims_of(op, [v.dims for v in vs])
+    root = b.result(op, vs, dims, False, exact, 0)
+    seed = b.seed_for(root, seed_kind)
+    kw = {}
+    if rtol is not None:
+        kw["rtol"] = rtol
+    c = graph_case("op_" + op[0], b, root, seed, cls, **kw)
+    return add_tangents(c, rng, exact=exact)
+
+
+def out_dims_of(op, ds):
+    k = op[0]
+    if k in ("add", "sub", "mul", "div", "axpy"):
+        return bshape(ds[0], ds[1])
+    if k == "sum":
+        return ds[0] if op[1] == 0 else ds[0][:len(ds[0]) - op[1]] + [1]
+    if k == "reshape":
+        return list(op[1])
+    if k == "matmul":
+        ta, tb = op[1], op[2]
+        a, bb = ds[0], ds[1]
+        if len(a) == 1 and len(bb) == 1:
+            return [1]
+        if len(a) == 1:
+            a2 = [1, a[0]]
+        else:
+            a2 = a
+        if len(bb) == 1:
+            b2 = [1, bb[0]]
+        else:
+            b2 = bb
+        rows = a2[-1] if ta else a2[-2]
+        cols = b2[-2] if tb else b2[-1]
+        lead = bshape(a2[:-2], b2[:-2]) if (a2[:-2] and b2[:-2]) else (a2[:-2] or b2[:-2])
+        if len(a) == 1 and len(bb) >= 2 and not ta:
+            return lead + [1, cols]
+        return lead + [rows, cols]
+    if k == "conv":
+        img, f = ds
+        return img[:-3] + [f[0], (img[-2] - f[-2]) // op[1] + 1, (img[-1] - f[-1]) // op[2] + 1]
+    return ds[0]
+
+
+def rvals(rng, n, exact, pos=False):
+    if exact:
+        return [float(rng.randint(1, 3) if pos else rng.randint(-3, 3)) for _ in range(n)]
+    if pos:
+        return [rng.uniform(0.3, 2.5) for _ in range(n)]
+    return [rng.choice([-1, 1]) * rng.uniform(0.2, 2.0) for _ in range(n)]
+
+
+def gen_C02(tier, rng):
+    cases = []
+    max_rank = 3 if tier == "quick" else 4
+    shapes = all_shapes(max_rank, 2)
+    # element-wise: every broadcast-compatible pair
+    for x in shapes:
+        for y in shapes:
+            if not bcompat(x, y):
+                continue
+            for op in (("add",), ("sub",), ("mul",)):
+                cases.append(single_op_case(rng, op, [(x, rvals(rng, prod(x), True)), (y, rvals(rng, prod(y), True))],
+                                            "ew:%s" % op[0]))
+            cases.append(single_op_case(rng, ("div",), [(x, rvals(rng, prod(x), False)),
+                                                        (y, rvals(rng, prod(y), False, pos=True))],
+                                        "ew:div", exact=False, rtol=1e-9))
+            if rng.random() < 0.3:
+                cases.append(single_op_case(rng, ("axpy", 0.5), [(x, rvals(rng, prod(x), True)), (y, rvals(rng, prod(y), True))],
+                                            "ew:axpy", exact=False, rtol=1e-9))
+            if rng.random() < 0.3:
+                mask = rng.choice([[True, False], [False, True]])
+                cases.append(single_op_case(rng, ("mul",), [(x, rvals(rng, prod(x), True)), (y, rvals(rng, prod(y), True))],
+                                            "ew:mul_partial", tracked=mask))
+    # unary maps and reductions
+    for s in all_shapes(4, 3 if tier == "thorough" else 2) + [[3], [2, 3], [3, 1, 2]]:
+        n = prod(s)
+        for op in (("neg",), ("scale", -2.0), ("powf", 2.0), ("powf", 3.0), ("relu",)):
+            cases.append(single_op_case(rng, op, [(s, rvals(rng, n, True))], "map:%s" % op[0]))
+        for op in (("powf", -1.0), ("powf", 0.5), ("powf", 2.5), ("powf", 3.0), ("ln",), ("recip",)):
+            cases.append(single_op_case(rng, op, [(s, rvals(rng, n, False, pos=True))], "map:%s" % op[0],
+                                        exact=False, rtol=1e-8))
+        for op in (("exp",), ("sigmoid",), ("softmax",), ("powf", 2.0)):
+            cases.append(single_op_case(rng, op, [(s, rvals(rng, n, False))], "map:%s" % op[0],
+                                        exact=False, rtol=1e-8))
+        for k in range(0, len(s) + 1):
+            if k > 0:
+                cases.append(single_op_case(rng, ("sum", k), [(s, rvals(rng, n, True))], "sum:k%d" % k))
+        for t in factorizations(n)[:6]:
+            if t != s:
+                cases.append(single_op_case(rng, ("reshape", t), [(s, rvals(rng, n, True))], "reshape"))
+    # matmul: sizes x flags x leading x additive term (thinned grid)
+    k = 0
+    sizes = list(itertools.product((1, 2, 3), repeat=3))
+    for rows, inner, cols in sizes:
+        for ta, tb in itertools.product((False, True), repeat=2):
+            for la, lb in [([], []), ([2], []), ([], [2]), ([2], [2]), ([1], [2]), ([2, 1], [2]), ([2], [1, 2])]:
+                k += 1
+                if tier == "quick" and k % 3 != 0:
+                    continue
+                da = la + mat_dims(rows, inner, ta)
+                db = lb + mat_dims(inner, cols, tb)
+                ops = [(da, rvals(rng, prod(da), True)), (db, rvals(rng, prod(db), True))]
+                f = bias_forms(rows, cols)[k % 5]
+                if f is not None:
+                    ops.append((f, rvals(rng, prod(f), True)))
+                mask = None if k % 4 else [rng.random() < 0.6 for _ in ops]
+                if mask is not None and not any(mask):
+                    mask[0] = True
+                cases.append(single_op_case(rng, ("matmul", ta, tb), ops, "matmul:lead%d_%d" % (len(la), len(lb)),
+                                            tracked=mask))
+    for n in (1, 2, 3):
+        cases.append(single_op_case(rng, ("matmul", False, False), [([n], rvals(rng, n, True)), ([n], rvals(rng, n, True))],
+                                    "matmul:dot"))
+        for m in (1, 2, 3):
+            for tb in (False, True):
+                db = mat_dims(n, m, tb)
+                cases.append(single_op_case(rng, ("matmul", False, tb), [([n], rvals(rng, n, True)), (db, rvals(rng, prod(db), True))],
+                                            "matmul:vec_left"))
+            for ta in (False, True):
+                da = mat_dims(m, n, ta)
+                cases.append(single_op_case(rng, ("matmul", ta, True), [(da, rvals(rng, prod(da), True)), ([n], rvals(rng, n, True))],
+                                            "matmul:vec_right"))
+    # convolution: strides 1-3, filters 1-3, overlapping and not, batches
+    grid = []
+    for rows, cols in itertools.product(range(1, 5), repeat=2):
+        for fr, fc in itertools.product(range(1, 4), repeat=2):
+            if fr > rows or fc > cols:
+                continue
+            for sr, sc in itertools.product(range(1, 4), repeat=2):
+                for batch in ([], [1], [2], [2, 2]):
+                    grid.append((batch, rows, cols, fr, fc, sr, sc))
+    if tier == "quick":
+        grid = rng.sample(grid, 500)
+    for batch, rows, cols, fr, fc, sr, sc in grid:
+        depth, count = rng.randint(1, 2), rng.randint(1, 2)
+        di = batch + [depth, rows, cols]
+        df = [count, depth, fr, fc]
+        cases.append(single_op_case(rng, ("conv", sr, sc), [(di, rvals(rng, prod(di), True)), (df, rvals(rng, prod(df), True))],
+                                    "conv:%s" % ("overlap" if (sr < fr or sc < fc) else "disjoint")))
+    return cases
+
+
+PROPS["C02"] = {
+    "gen": gen_C02,
+    "rule": "single-operation programs followed by backward(seed) and the gradient of every operand: add/sub/mul/div/axpy "
+            "on every broadcast-compatible pair of shapes with dimensions <= 2 (rank <= 3 quick, <= 4 thorough); neg, "
+            "scale, powf (exponents -1, 0.5, 2, 2.5, 3), ln, exp, reciprocal, relu, sigmoid, softmax, sum(k) for every k, "
+            "reshape on all shapes of rank <= 4; matmul over sizes {1,2,3}^3 x 4 flag pairs x 7 leading patterns x "
+            "additive-term forms (a third of the grid in quick) with partial tracking masks, plus the rank-1 forms; "
+            "conv over images <= 4x4, filters <= 3x3, strides 1-3, batch absent/[1]/[2]/[2,2] (500 sampled in quick); "
+            "random integer seeds; gradients compared with the model and, independently, as directional derivatives "
+            "against the model's dual-number evaluation of the forward operation; distinct = distinct program text",
+    "exhaustive": {"quick": False, "thorough": False},
+    "assumptions": ["in-domain values: ln/reciprocal/division/fractional powers only on positive data",
+                    "relu is differentiated with the convention 0 at 0"],
+    "dual": True,
+}
